@@ -166,6 +166,15 @@ def valid_case(draw, tier="quick"):
                 xs[i] = draw(st.sampled_from(planted))
         extra = {"bound_unit": draw(st.sampled_from(["same", "s", "s"])),
                  "dtype_param": draw(st.sampled_from([None, "datetime64", "datetime64", "unit"]))}
+    elif kind == "dt" and draw(st.integers(0, 4)) == 0:
+        # "open ended" written as a far-away date (9999-12-31, 2300-01-01, 1601-01-01): outside what nanoseconds can hold
+        if hi_c is not None and draw(st.booleans()):
+            hi_c = draw(st.sampled_from([253402214400, 10413792000]))
+        elif lo_c is not None:
+            lo_c = draw(st.sampled_from([-11644473600, -11644473600, 253402214400]))
+            if hi_c is not None and hi_c < lo_c:
+                hi_c = lo_c
+        extra = {"far_bounds": True, "bound_unit": "s"}
     elif kind == "dt" and draw(st.integers(0, 2)) == 0:
         # bounds finer than the data: whole-second instants in a datetime64[s] array, bounds on half seconds
         unit = "s"
@@ -178,7 +187,17 @@ def valid_case(draw, tier="quick"):
         xs = [None if v is None else float(round(v)) for v in xs]
         lo_c = None if lo_c is None else float(round(lo_c)) + draw(st.sampled_from([0.0, 0.5, -0.5]))
         hi_c = None if hi_c is None else max(float(round(hi_c)) + draw(st.sampled_from([0.0, 0.5, -0.5])), lo_c if lo_c is not None else -1e9)
-        extra = {"int_data": draw(st.sampled_from(["int64", "int32", "int64+float64"]))}
+        extra = {"int_data": draw(st.sampled_from(["int64", "int32", "int64+float64", "uint16", "uint8"]))}
+        if extra["int_data"].startswith("uint"):
+            # unsigned counts (differences of unsigned integers wrap around): everything reflected to >= 0
+            xs = [None if v is None else abs(v) for v in xs]
+            b = sorted(abs(v) for v in (lo_c, hi_c) if v is not None)
+            if lo_c is not None and hi_c is not None:
+                lo_c, hi_c = b
+            elif lo_c is not None:
+                lo_c = b[0]
+            elif hi_c is not None:
+                hi_c = b[0]
     return {"kind": kind, "x": xs, "lo": lo_c, "hi": hi_c, "si": draw(st.booleans()), "ei": draw(st.booleans()), **extra,
             "unit": unit, "absent_as": draw(st.sampled_from(["none", "nan"])),
             "bound_type": draw(st.sampled_from(["np", "py"])), "span_kind": draw(st.sampled_from(["list", "tuple"])),
@@ -194,6 +213,10 @@ def _valid_inputs(case):
         a = arr(case["x"])
         idt = case.get("int_data")
         lim = 2 ** 31 if idt and idt.startswith("int32") else 2 ** 53
+        if idt and idt.startswith("uint"):
+            lim = 2 ** 16 if idt == "uint16" else 2 ** 8
+            if any(v is not None and v < 0 for v in case["x"]):
+                idt = None
         if idt and all(v is None or (v == v and abs(v) < lim and float(v) == int(v)) for v in case["x"]):
             if all(v is not None for v in case["x"]):
                 a = np.array([int(v) for v in case["x"]], dtype=idt.split("+")[0])
@@ -214,7 +237,10 @@ def _valid_inputs(case):
             if v is None:
                 return None if case["absent_as"] == "none" else np.datetime64("NaT")
             if case["bound_type"] == "py":
-                return dtm.datetime(1970, 1, 1) + dtm.timedelta(milliseconds=int(round(float(v) * 1000)))
+                try:
+                    return dtm.datetime(1970, 1, 1) + dtm.timedelta(milliseconds=int(round(float(v) * 1000)))
+                except OverflowError:  # beyond year 9999 (a far bound shifted further): only numpy can say it
+                    return np.datetime64(int(v), "s")
             if float(v) != int(v):
                 return np.datetime64(int(round(float(v) * 1000)), "ms")
             bu = unit if case.get("bound_unit", "same") == "same" else "s"
@@ -257,6 +283,8 @@ def check_valid(case, rec):
         labels.append("int_data")
     if case.get("fine_bounds"):
         labels.append("bounds_finer_than_data")
+    if case.get("far_bounds"):
+        labels.append("bounds_beyond_nanosecond_range")
     rec.note(on, labels)
     a, span = _valid_inputs(case)
     kw = {} if case.get("defaults") else {"start_inclusive": si, "end_inclusive": ei}
